@@ -50,14 +50,18 @@ class Namespace(typing.Generic[T]):
 
     def _is_shadowed_global(self, name: str) -> bool:
         """
-        A name declared `global` here, while an enclosing function has a local of
-        the same name: as a plain name it would be captured by the enclosing lambda
+        A name that is global here (declared here, or in an enclosing function),
+        while a function further out has a local of the same name:
+        as a plain name it would be captured by that function's lambda
         """
         try:
-            if not self.symt.lookup(name).is_declared_global():
+            if not self.symt.lookup(name).is_global():
                 return False
         except KeyError:
             return False
+        return self._is_local_of_enclosing_function(name)
+
+    def _is_local_of_enclosing_function(self, name: str) -> bool:
         outer = self.outer_nsp
         while not isinstance(outer, NamespaceGlobal):
             if isinstance(outer, NamespaceFunction):
@@ -317,6 +321,8 @@ class NamespaceClass(Namespace[symtable.Class]):
         if self.comp_stack and name in self.globals_used_in_comp:
             # only inside the lambda / comprehension itself:
             # the class body proper still sees its own member of that name
+            if self._is_local_of_enclosing_function(name):
+                return self._load_global(name)
             return Name(id=name, ctx=Load())
 
         symbol = self.symt.lookup(name)
